@@ -159,22 +159,39 @@ def judge_indirect(c, r):
     want, enc, x = c["plain"], c["enc"], r["ind"]
     det = {"indirect_entry": c["ind"], "key": c["key"], "stage": c["idx"], "dictionary": x["dict"], "resolved_chain": c["chain"],
            "encoded": enc, "spec_plain": want, "decompressed_content": r["dc"], "get_plain_content": r["gp"],
-           "after_Stream_decompress": r["dz"], "after_Document_decompress": x["doc_decompress"]}
+           "after_Stream_decompress": r["dz"], "after_Document_decompress": x["doc_decompress"],
+           "Document_get_page_content": x["get_page_content"]}
     if any("panic" in v for v in (r["dc"], r["gp"], r["dz"], x["doc_decompress"])):
         return "C09:panic.indirect." + c["ind"], det
     bad = []          # (what, exactly as if the referenced entry were absent?)
     for what, v, a in (("decompressed_content", r["dc"], x["abs"]["dc"]), ("get_plain_content", r["gp"], x["abs"]["gp"])):
         if v["ok"] and v["data"] != want:
             bad.append((what, a["ok"] and a["data"] == v["data"]))
-    for what, z in (("Stream::decompress", r["dz"]), ("Document::decompress", x["doc_decompress"])):
-        kept = z["content"] == enc and z["has_filter"]
-        done = z["content"] == want and not z["has_filter"]
-        if z["length"] != len(z["content"]):
-            bad.append((what + ".length", False))
-        elif not (kept or done):
-            bad.append((what, z["content"] == x["abs"]["dz"]["content"]))
-    if not bad:
+    z = r["dz"]
+    kept = z["content"] == enc and z["has_filter"]
+    done = z["content"] == want and not z["has_filter"]
+    if z["length"] != len(z["content"]):
+        bad.append(("Stream::decompress.length", False))
+    elif not (kept or done):
+        bad.append(("Stream::decompress", z["content"] == x["abs"]["dz"]["content"]))
+    # Document level: the referenced object is in the document - references resolved, then the Stream contract.
+    # Document::decompress must decode the stream; get_page_content must not hand out anything but the decoded data.
+    doc_bad = []      # (what, exactly "the Document does not resolve the reference: stream / bytes left as they are"?)
+    z = x["doc_decompress"]
+    if z["length"] != len(z["content"]):
+        doc_bad.append(("Document::decompress.length", False))
+    elif not (z["content"] == want and not z["has_filter"]):
+        doc_bad.append(("Document::decompress", z["content"] == enc and z["has_filter"]))
+    g = x["get_page_content"]
+    if g["ok"] and g["data"] != want and g["data"][:-1] != want:
+        doc_bad.append(("Document::get_page_content", g["data"] == enc + [10]))
+    if not bad and not doc_bad:
         return None, det
+    if not bad:
+        det["broken"] = [b[0] for b in doc_bad]
+        if all(b[1] for b in doc_bad):
+            return "C09:doc-indirect." + c["ind"], det      # the open finding, in its exact form
+        return "C09:doc-indirect-other.%s.%s" % (c["ind"], [b[0] for b in doc_bad if not b[1]][0]), det
     det["broken"] = [b[0] for b in bad]
     if all(b[1] for b in bad):
         return "C09:indirect." + c["ind"], det          # the open finding, in its exact form
@@ -253,7 +270,7 @@ def codec_phase(chk, tier, w):
             chk.traces += 1
         ans = "gp" if c["k"] == "chain" and not c["chain"] else "dc"      # zero filters: get_plain_content answers
         if c.get("ind", "none") != "none":
-            passed[family(c)] = passed.get(family(c), 0) + (sig is None or sig.startswith("C09:indirect."))
+            passed[family(c)] = passed.get(family(c), 0) + (sig is None or sig.startswith(("C09:indirect.", "C09:doc-indirect.")))
             if r_["dc"] != c["impldc"] and not (not r_["dc"]["ok"] and not c["impldc"]["ok"]):
                 chk.extra["model_drift"] = chk.extra.get("model_drift", 0) + 1
             continue
@@ -395,7 +412,12 @@ def streamops_model(chk, tier):
     if not all(any(k.startswith("history.") for k in x) for x in d.tagged("DEVIATION")) or \
             seen != {"history.png.cut-row", "history.png.bad-type", "history.zlib.cut"}:
         raise vlib.ToolError("deviation switch devRows: model shows %s" % sorted({tuple(x) for x in d.tagged("DEVIATION")}))
-    chk.extra["seeded_design_deviations_detected"] = 6
+    d = tlc("MC_StreamOps.tla", "MC_StreamOps_devDocInd.cfg", workers=2, timeout=600)
+    chk.add_tlc(d)
+    seen = {tuple(x) for x in d.tagged("DEVIATION")}
+    if seen != {("doc-indirect.parms",), ("doc-indirect.filter",)}:
+        raise vlib.ToolError("deviation switch devDocInd: model shows %s" % sorted(seen))
+    chk.extra["seeded_design_deviations_detected"] = 7
 
 
 def add_oracle(recs):
@@ -440,7 +462,7 @@ def trace_phase(chk, tier, w):
             if v["v"] == "ok-drift":
                 chk.extra["model_drift"] = chk.extra.get("model_drift", 0) + 1
         else:
-            strip = lambda s: {k: s[k] for k in ("filters", "fform", "form", "parms", "ind", "length", "content", "allows", "dc", "gp")}
+            strip = lambda s: {k: s[k] for k in ("filters", "fform", "form", "parms", "ind", "length", "content", "allows", "dc", "gp", "pc")}
             chk.violation("C09:" + v["v"], {"op": rec["op"], "stream": rec["sid"], "arg": rec["arg"], "res": rec["res"],
                                             "last_disturbance_of_the_thread": rec["dk"], "right_before_this_call": rec["dnow"],
                                             "fresh_thread_agrees": rec["fresh_same"] and not any(s["hs"] for s in rec["post"]),
